@@ -9,7 +9,7 @@
 //   case <id> | <expr> | <leaf specs> | <events> [| throw=K]     (K-th move of a tracked value throws)
 //
 //   expr   := (just N) (jerr N) (jdone) (argv N) (sir) (leaf N) (jfrom N) (jvod 0|1) (iv E) (dfr E) (alc E)
-//             (then FN E) (uerr FN E) (udone N E) (md E) (dao N E) (uns E) (tag N E) (src E) (era E)
+//             (then FN E) (uerr FN E) (udone FN E) (md E) (dao N E) (uns E) (tag N E) (src E) (era E) (rtk E) (lvt E)
 //             (lv A B) (le A B) (ld A B) (seq A B) (fin A B) (wa A B) (sw A B) (any A B)
 //   FN     := add:K | thr:E | tie:C:E:K
 //   specs  := I=i:vN | I=i:eN | I=i:d | I=p:ign | I=p:done          (space separated)
@@ -38,6 +38,7 @@
 #include <unifex/let_error.hpp>
 #include <unifex/let_value.hpp>
 #include <unifex/let_value_with_stop_source.hpp>
+#include <unifex/let_value_with_stop_token.hpp>
 #include <unifex/materialize.hpp>
 #include <unifex/sequence.hpp>
 #include <unifex/config.hpp>
@@ -118,6 +119,7 @@ struct World {
   std::vector<std::string> out;         // outputs of the current event
   int rootCompletions = 0;
   bool started = false;
+  bool tok = false;                     // field "tok": counting-token boundaries around composite nodes (see evt.cpp)
   void emit(std::string s) { out.push_back(std::move(s)); }
 };
 
@@ -177,6 +179,70 @@ struct LeafSender {
   }
 };
 
+// ---------------------------------------------------------------- counting stop token + receiver boundary
+// A stop token that is NOT inplace_stop_token (so the algorithms take their generic paths) and counts the
+// callbacks currently REGISTERED through it: +1 at construction, -1 when the callback is invoked (the source
+// has dequeued it) or destroyed, whichever comes first.  C04: the count must be 0 whenever a completion signal
+// passes the receiver that handed out the token.
+struct CountTok {
+  inplace_stop_token t;
+  std::shared_ptr<int> n;
+  bool stop_requested() const noexcept { return t.stop_requested(); }
+  bool stop_possible() const noexcept { return t.stop_possible(); }
+  template <typename F>
+  struct callback_type {
+    struct Fire { callback_type* self; void operator()() noexcept { self->fire(); } };
+    F f; std::shared_ptr<int> n; bool counted;
+    inplace_stop_callback<Fire> cb;
+    template <typename F2>
+    callback_type(CountTok tok, F2&& f2) : f((F2&&)f2), n(std::move(tok.n)), counted((++*n, true)), cb(tok.t, Fire{this}) {}
+    ~callback_type() { if (counted) --*n; }
+    void fire() noexcept {
+      if (counted) { counted = false; --*n; }
+      std::move(f)();          // may destroy *this: nothing is touched afterwards
+    }
+  };
+};
+
+template <typename S>
+struct Retok {
+  template <template <typename...> class Variant, template <typename...> class Tuple>
+  using value_types = sender_value_types_t<S, Variant, Tuple>;
+  template <template <typename...> class Variant>
+  using error_types = sender_error_types_t<S, Variant>;
+  static constexpr bool sends_done = sender_traits<S>::sends_done;
+
+  World* w; S s;
+
+  template <typename R>
+  struct Rcv {
+    World* w; std::shared_ptr<int> n; R* r;
+    void check() noexcept { if (*n != 0) w->emit("!!cbreg=" + std::to_string(*n)); }
+    template <typename... Vs>
+    void set_value(Vs&&... vs) && noexcept {
+      check();
+      UNIFEX_TRY { unifex::set_value(std::move(*r), (Vs&&)vs...); }
+      UNIFEX_CATCH(...) { unifex::set_error(std::move(*r), std::current_exception()); }
+    }
+    template <typename E>
+    void set_error(E&& e) && noexcept { check(); unifex::set_error(std::move(*r), (E&&)e); }
+    void set_done() && noexcept { check(); unifex::set_done(std::move(*r)); }
+    friend CountTok tag_invoke(tag_t<get_stop_token>, const Rcv& x) noexcept { return CountTok{get_stop_token(*x.r), x.n}; }
+    friend int tag_invoke(get_tag_fn, const Rcv& x) noexcept { return get_tag(std::as_const(*x.r)); }
+  };
+  template <typename R>
+  struct Op {
+    R r; std::shared_ptr<int> n;
+    connect_result_t<S, Rcv<R>> inner;
+    Op(World* w, S&& s, R&& r0) : r(std::move(r0)), n(std::make_shared<int>(0)), inner(connect(std::move(s), Rcv<R>{w, n, &r})) {}
+    void start() noexcept { unifex::start(inner); }
+  };
+  template <typename R>
+  friend Op<remove_cvref_t<R>> tag_invoke(tag_t<connect>, Retok&& s, R&& r) {
+    return Op<remove_cvref_t<R>>{s.w, std::move(s.s), (R&&)r};
+  }
+};
+
 // ---------------------------------------------------------------- parser
 struct Node { std::string k; std::vector<std::string> args; std::vector<Node> ch; };
 
@@ -203,16 +269,27 @@ struct Parser {
 };
 
 struct Fn {
-  int kind = 0, c = 0, e = 0, k = 0;   // 0 add, 1 throw always, 2 throw if eq
-  TV operator()(TV x) const { if (kind == 1 || (kind == 2 && x.v == c)) throw Err{e}; return TV{x.v + k}; }
-  int operator()(int x) const { if (kind == 1 || (kind == 2 && x == c)) throw Err{e}; return x + k; }
+  int kind = 0, c = 0, e = 0, k = 0;   // 0 add, 1 throw always, 2 throw if eq (else x+k), 3 const k, 4 throw if eq (else k)
+  bool isVoid = false;                 // the callable returns void; the builder appends "then k"
+  int operator()(int x) const {
+    if (kind == 1 || ((kind == 2 || kind == 4) && x == c)) throw Err{e};
+    return (kind == 3 || kind == 4) ? k : x + k;
+  }
+  TV operator()(TV x) const { return TV{(*this)(x.v)}; }
 };
+struct VoidFn { Fn f; void operator()(TV x) const { (void)f(x.v); } };
 static Fn parse_fn(const std::string& s) {
   Fn f; std::vector<std::string> parts; std::stringstream ss(s); std::string it;
   while (std::getline(ss, it, ':')) parts.push_back(it);
-  if (parts[0] == "add") { f.kind = 0; f.k = atoi(parts[1].c_str()); }
-  else if (parts[0] == "thr") { f.kind = 1; f.e = atoi(parts[1].c_str()); }
-  else { f.kind = 2; f.c = atoi(parts[1].c_str()); f.e = atoi(parts[2].c_str()); f.k = atoi(parts[3].c_str()); }
+  std::string h = parts[0];
+  if (h.size() > 1 && h[0] == 'v' && (h == "vcst" || h == "vthr" || h == "vtie")) { f.isVoid = true; h = h.substr(1); if (h == "tie") h = "ctie"; }
+  if (h == "add") { f.kind = 0; f.k = atoi(parts[1].c_str()); }
+  else if (h == "thr") { f.kind = 1; f.e = atoi(parts[1].c_str()); }
+  else if (h == "tie") { f.kind = 2; f.c = atoi(parts[1].c_str()); f.e = atoi(parts[2].c_str()); f.k = atoi(parts[3].c_str()); }
+  else if (h == "cst") { f.kind = 3; f.k = atoi(parts[1].c_str()); }
+  else if (h == "ctie") { f.kind = 4; f.c = atoi(parts[1].c_str()); f.e = atoi(parts[2].c_str()); f.k = atoi(parts[3].c_str()); }
+  else if (parts.size() == 1 && isdigit((unsigned char)h[0])) { f.kind = 3; f.k = atoi(h.c_str()); }
+  else throw std::runtime_error("bad fn " + s);
   return f;
 }
 
@@ -220,6 +297,15 @@ static Fn parse_fn(const std::string& s) {
 static Any build(World* w, const Node& n, int arg);
 
 static AnyVoid discard(Any a) { return AnyVoid{then(std::move(a), [](TV) noexcept {})}; }
+
+template <typename S>
+static Any mk(World* w, S&& s) {
+  if (w->tok) return Any{Retok<remove_cvref_t<S>>{w, (S&&)s}};
+  return Any{(S&&)s};
+}
+
+// result of a void-returning user callable, or the child's own int value, as one int
+struct Unify { int k; TV operator()() const { return TV{k}; } TV operator()(TV x) const { return TV{x.v}; } };
 
 static Any build(World* w, const Node& n, int arg) {
   const std::string& k = n.k;
@@ -229,57 +315,77 @@ static Any build(World* w, const Node& n, int arg) {
   if (k == "jdone") return Any{then(just_done(), []() { return TV{0}; })};
   if (k == "argv") return Any{just(TV{arg + num(0)})};
 #if !UNIFEX_NO_COROUTINES
-  if (k == "sir") return Any{then(stop_if_requested(), []() { return TV{0}; })};
+  if (k == "sir") return mk(w, then(stop_if_requested(), []() { return TV{0}; }));
 #endif
   if (k == "jfrom") { int v = num(0); return Any{just_from([v]() { return TV{v}; })}; }
   if (k == "jvod") return Any{then(just_void_or_done(num(0) != 0), []() { return TV{0}; })};
-  if (k == "leaf") return Any{LeafSender{w, num(0)}};
+  if (k == "leaf") return mk(w, LeafSender{w, num(0)});
   if (k == "iv") {
-    return Any{then(into_variant(build(w, n.ch.at(0), arg)),
-                    [](auto&& var) { return TV{std::get<0>(std::get<0>(var)).v}; })};
+    return mk(w, then(into_variant(build(w, n.ch.at(0), arg)),
+                      [](auto&& var) { return TV{std::get<0>(std::get<0>(var)).v}; }));
   }
-  if (k == "dfr") { const Node* c = &n.ch.at(0); return Any{defer([w, c, arg]() { return build(w, *c, arg); })}; }
-  if (k == "alc") return Any{allocate(build(w, n.ch.at(0), arg))};
-  if (k == "then") { Fn f = parse_fn(n.args.at(0)); return Any{then(build(w, n.ch.at(0), arg), f)}; }
+  if (k == "dfr") { const Node* c = &n.ch.at(0); return mk(w, defer([w, c, arg]() { return build(w, *c, arg); })); }
+  if (k == "alc") return mk(w, allocate(build(w, n.ch.at(0), arg)));
+  if (k == "then") {
+    Fn f = parse_fn(n.args.at(0));
+    if (f.isVoid) return mk(w, then(then(build(w, n.ch.at(0), arg), VoidFn{f}), [f]() { return TV{f.k}; }));
+    return mk(w, then(build(w, n.ch.at(0), arg), f));
+  }
   if (k == "uerr") {
     Fn f = parse_fn(n.args.at(0));
-    return Any{upon_error(build(w, n.ch.at(0), arg), [f](std::exception_ptr e) { return TV{f(errcode(e))}; })};
+    if (f.isVoid)
+      return mk(w, then(upon_error(build(w, n.ch.at(0), arg), [f](std::exception_ptr e) { (void)f(errcode(e)); }), Unify{f.k}));
+    return mk(w, upon_error(build(w, n.ch.at(0), arg), [f](std::exception_ptr e) { return TV{f(errcode(e))}; }));
   }
-  if (k == "udone") { int v = num(0); return Any{upon_done(build(w, n.ch.at(0), arg), [v]() { return TV{v}; })}; }
-  if (k == "md") return Any{dematerialize(materialize(build(w, n.ch.at(0), arg)))};
+  if (k == "udone") {
+    Fn f = parse_fn(n.args.at(0));
+    if (f.isVoid) return mk(w, then(upon_done(build(w, n.ch.at(0), arg), [f]() { (void)f(0); }), Unify{f.k}));
+    if (f.kind == 3) { int v = f.k; return mk(w, upon_done(build(w, n.ch.at(0), arg), [v]() { return TV{v}; })); }
+    return mk(w, upon_done(build(w, n.ch.at(0), arg), [f]() { return TV{f(0)}; }));
+  }
+  if (k == "md") return mk(w, dematerialize(materialize(build(w, n.ch.at(0), arg))));
   if (k == "dao") {
     int d = num(0);
-    return Any{then(done_as_optional(build(w, n.ch.at(0), arg)), [d](std::optional<TV> o) { return o ? TV{o->v} : TV{d}; })};
+    return mk(w, then(done_as_optional(build(w, n.ch.at(0), arg)), [d](std::optional<TV> o) { return o ? TV{o->v} : TV{d}; }));
   }
-  if (k == "uns") return Any{unstoppable(build(w, n.ch.at(0), arg))};
-  if (k == "tag") return Any{with_query_value(build(w, n.ch.at(0), arg), get_tag, num(0))};
+  if (k == "uns") return mk(w, unstoppable(build(w, n.ch.at(0), arg)));
+  if (k == "tag") return mk(w, with_query_value(build(w, n.ch.at(0), arg), get_tag, num(0)));
   if (k == "src") {
     const Node* c = &n.ch.at(0);
-    return Any{let_value_with_stop_source([w, c, arg](inplace_stop_source&) { return build(w, *c, arg); })};
+    return mk(w, let_value_with_stop_source([w, c, arg](inplace_stop_source&) { return build(w, *c, arg); }));
   }
   if (k == "era") return Any{build(w, n.ch.at(0), arg)};
+  // a counting-token boundary regardless of the case flag (exercises any_sender_of's stop-token adapter)
+  if (k == "rtk") return Any{Retok<Any>{w, build(w, n.ch.at(0), arg)}};
+  // let_value_with_stop_token connected to a receiver whose token is NOT inplace_stop_token (generic path: own
+  // stop source + forwarding callback on the receiver's token)
+  if (k == "lvt") {
+    const Node* c = &n.ch.at(0);
+    auto s = let_value_with_stop_token([w, c, arg](inplace_stop_token) noexcept { return build(w, *c, arg); });
+    return Any{Retok<decltype(s)>{w, std::move(s)}};
+  }
   if (k == "lv") {
     const Node* s = &n.ch.at(1);
-    return Any{let_value(build(w, n.ch.at(0), arg), [w, s](TV& v) { return build(w, *s, v.v); })};
+    return mk(w, let_value(build(w, n.ch.at(0), arg), [w, s](TV& v) { return build(w, *s, v.v); }));
   }
   if (k == "le") {
     const Node* s = &n.ch.at(1);
-    return Any{let_error(build(w, n.ch.at(0), arg), [w, s](std::exception_ptr e) { return build(w, *s, errcode(e)); })};
+    return mk(w, let_error(build(w, n.ch.at(0), arg), [w, s](std::exception_ptr e) { return build(w, *s, errcode(e)); }));
   }
   if (k == "ld") {
     const Node* s = &n.ch.at(1);
-    return Any{let_done(build(w, n.ch.at(0), arg), [w, s, arg]() { return build(w, *s, arg); })};
+    return mk(w, let_done(build(w, n.ch.at(0), arg), [w, s, arg]() { return build(w, *s, arg); }));
   }
-  if (k == "seq") return Any{sequence(discard(build(w, n.ch.at(0), arg)), build(w, n.ch.at(1), arg))};
-  if (k == "fin") return Any{finally(build(w, n.ch.at(0), arg), discard(build(w, n.ch.at(1), arg)))};
+  if (k == "seq") return mk(w, sequence(discard(build(w, n.ch.at(0), arg)), build(w, n.ch.at(1), arg)));
+  if (k == "fin") return mk(w, finally(build(w, n.ch.at(0), arg), discard(build(w, n.ch.at(1), arg))));
   if (k == "wa") {
-    return Any{then(when_all(build(w, n.ch.at(0), arg), build(w, n.ch.at(1), arg)),
-                    [](auto&& a, auto&& b) {
-                      return TV{(int)(((long long)std::get<0>(std::get<0>(a)).v * 1000 + std::get<0>(std::get<0>(b)).v) % 1000003)};
-                    })};
+    return mk(w, then(when_all(build(w, n.ch.at(0), arg), build(w, n.ch.at(1), arg)),
+                      [](auto&& a, auto&& b) {
+                        return TV{(int)(((long long)std::get<0>(std::get<0>(a)).v * 1000 + std::get<0>(std::get<0>(b)).v) % 1000003)};
+                      }));
   }
-  if (k == "any") return Any{when_any(build(w, n.ch.at(0), arg), build(w, n.ch.at(1), arg))};
-  if (k == "sw") return Any{stop_when(build(w, n.ch.at(0), arg), discard(build(w, n.ch.at(1), arg)))};
+  if (k == "any") return mk(w, when_any(build(w, n.ch.at(0), arg), build(w, n.ch.at(1), arg)));
+  if (k == "sw") return mk(w, stop_when(build(w, n.ch.at(0), arg), discard(build(w, n.ch.at(1), arg))));
   throw std::runtime_error("unknown node " + k);
 }
 
@@ -321,9 +427,9 @@ static std::string run_case(const std::string& line) {
   if (parts.size() < 4) return "bad-op";
   std::string id = trim(parts[0]);
   g_tv_moves = 0; g_tv_throw_at = 0;
-  if (parts.size() >= 5) { std::string t = trim(parts[4]); if (t.rfind("throw=", 0) == 0) g_tv_throw_at = atol(t.c_str() + 6); }
-  long tv_before = g_tv_live;
   World w;
+  for (size_t i = 4; i < parts.size(); ++i) { std::string t = trim(parts[i]); if (t.rfind("throw=", 0) == 0) g_tv_throw_at = atol(t.c_str() + 6); else if (t == "tok") w.tok = true; }
+  long tv_before = g_tv_live;
   {
     std::stringstream ss(parts[2]); std::string tok;
     while (ss >> tok) {
